@@ -65,6 +65,9 @@ func genC13(t *rapid.T) C13Case {
 	if partial {
 		ops = append(ops, "prune", "ingest", "verify", "vpp")
 	}
+	if rapid.Bool().Draw(t, "restarts") {
+		ops = append(ops, "restart") // a forest that has been through earlier restarts
+	}
 	n := rapid.IntRange(1, lim.maxBlocks).Draw(t, "nsteps")
 	for i := 0; i < n; i++ {
 		c.Steps = append(c.Steps, g.next(t, lim, ops))
@@ -272,9 +275,18 @@ func runC13(c C13Case) *Result {
 		if ce != nil {
 			return res.failf("%v", ce)
 		}
+		if oe != nil && st.Op == "restart" {
+			return res.failf("%v", oe)
+		}
 		if oe != nil {
 			res.class("setup-failed")
 			return res
+		}
+		if st.Op == "restart" {
+			if err := w.check(); err != nil {
+				return res.failf("step %d: after the forest was written out and restored: %v", i, err)
+			}
+			res.count("restarts-in-the-history", 1)
 		}
 		if st.Op == "block" && len(st.B.Del) > 0 {
 			anyDel = true
